@@ -16,17 +16,40 @@ STATE_AFTER_READ = {True: 'C', False: 'I'}
 
 
 def strip_deleted(ws_text):
-    """Remove the records of instances marked deleted ('D#id=...;') from a working-session file text."""
-    out, skipping = [], False
-    for line in ws_text.split('\n'):
-        if not skipping and re.match(r'\s*D\s*#', line):
-            skipping = True
-        if skipping:
-            if ';' in line:
-                skipping = False
-            continue
-        out.append(line)
-    return '\n'.join(out)
+    """Remove the records of instances marked deleted (`D [comments] #id = ... ;`) from a working-session file text,
+    using the reference tokenizer (comments between the state letter and the id, `;` inside strings)."""
+    try:
+        toks = ref_p21.tokenize(ws_text, keep_comments=True)
+    except ref_p21.P21Error:
+        return ws_text
+    cuts = []
+    i = 0
+    n = len(toks)
+    while i < n:
+        k, t, pos = toks[i]
+        if k == 'kw' and t == 'D':
+            j = i + 1
+            while j < n and toks[j][0] == 'cmt':
+                j += 1
+            if j < n and toks[j][0] == 'ref':
+                while j < n and not (toks[j][0] == 'p' and toks[j][1] == ';'):
+                    j += 1
+                if j < n:
+                    endp = toks[j][2] + 1
+                    while endp < len(ws_text) and ws_text[endp] in ' \t\r':
+                        endp += 1
+                    if endp < len(ws_text) and ws_text[endp] == '\n':
+                        endp += 1
+                    cuts.append((pos, endp))
+                    i = j + 1
+                    continue
+        i += 1
+    out, last = [], 0
+    for a, b in cuts:
+        out.append(ws_text[last:a])
+        last = b
+    out.append(ws_text[last:])
+    return ''.join(out)
 
 
 def make_incomplete(schema, pop, rng, frac=.3):
@@ -50,7 +73,9 @@ def make_incomplete(schema, pop, rng, frac=.3):
 
 
 def judge(chk, lib, pop, sigma, tagset):
-    text = gen_p21.render(pop, 'compact')
+    # instance comments are stored with the instance and written between the state letter and '#id' in working-session files
+    variant = 'cmt_between' if 'instance comments' in tagset else 'compact'
+    text = gen_p21.render(pop, variant, random.Random('c16r/%s/%d' % (lib.schema.name, len(pop.insts))))
     files = {'schema.exp': lib.schema.text(), 'in.p21': text, 'states.txt': ','.join('%d:%s' % kv for kv in sorted(sigma.items()))}
     found = []
     shape = '+'.join(sorted(tagset)) or 'plain'
@@ -132,6 +157,8 @@ def main(chk):
                     tags0.add('partially filled')
             if any(i.complex for i in pop.insts):
                 tags0.add('complex')
+            if pi % 2 == 1:
+                tags0.add('instance comments')
             refd = set()
             for i in pop.insts:
                 refd.update(ref_p21.inst_refs(i))
